@@ -1,6 +1,6 @@
 #!/bin/bash
 # setup: configure-only cmake runs (threading off / on), synthesized comma-decimal locale, harness + first build
-. /verif/scripts/common.sh
+. "$(dirname "${BASH_SOURCE[0]}")/common.sh"
 ensure_cfg cfg &
 p1=$!
 ensure_cfg cfg-thr -DENABLE_THREADING=ON &
